@@ -74,6 +74,8 @@ def judge(ctx, results, kind, focus=None):
         if mm:
             sig = {'storage': kind, 'action': mm['action'], 'what': mm['what'],
                    'where': _where(mm['detail'][0])}
+            if r.get('mode'):
+                sig['mode'] = r['mode']
             ctx.violation(sig, '%s storage diverges from ZStorage at step %d %s%s: %s' % (
                 kind, mm['step'], mm['action'], mm['args'], '; '.join(mm['detail'])),
                 replay={'kind': kind, 'prefix': mm['prefix']})
